@@ -29,11 +29,13 @@ HEADER = ("From Coq Require Import ZArith List Bool. Import ListNotations. Open 
 D = 64
 
 
-def identity_wcs(n, types):
+def identity_wcs(n, types, preattached_box=None):
     import astropy.units as u
     from astropy.modeling import models
     from gwcs import wcs, coordinate_frames as cf
     tr = models.Identity(n)
+    if preattached_box is not None:      # set on the transform before the WCS exists: astropy keeps it in its native 'C' order
+        tr.bounding_box = preattached_box[0] if n == 1 else tuple(preattached_box[::-1])
     det = cf.CoordinateFrame(naxes=n, axes_type=("PIXEL",) * n, axes_order=tuple(range(n)), name="detector", unit=(u.pix,) * n)
     out = cf.CoordinateFrame(naxes=n, axes_type=tuple(types), axes_order=tuple(range(n)), name="world", unit=(u.pix,) * n)
     return wcs.WCS([(det, tr), (out, None)])
@@ -127,10 +129,12 @@ def run(ctx):
             lo = rng.choice([0, -D // 2, rng.randint(0, 3 * D), 5 * D + D // 2, D // 2, 2 * D + D // 2, -D - D // 2])
             box.append((lo, lo + rng.choice([D, 4 * D, rng.randint(1, 5 * D), 3 * D + D // 2, 2 * D, 2 * D + D // 2, 5 * D])))
         bb = tuple((lo / D, hi / D) for lo, hi in box)
-        mode = rng.choice(["own", "arg", "both"])      # both: the WCS has a different box of its own, the one passed in must be used
-        own = mode == "own"
+        mode = rng.choice(["own", "own-preattached", "arg", "both"])      # both: the WCS has a different box of its own, the one passed in must be used
+        own = mode in ("own", "own-preattached")
         center = rng.random() < 0.5
-        if own:
+        if mode == "own-preattached":
+            w = identity_wcs(n, types, preattached_box=bb)
+        elif own:
             w.bounding_box = bb[0] if n == 1 else bb
         elif mode == "both":
             decoy = tuple((40.0 + i, 47.0 + 2 * i) for i in range(n))
